@@ -8,6 +8,7 @@ import (
 	"sync"
 	"sync/atomic"
 	"time"
+	"unsafe"
 )
 
 // Controlled scheduler (DESIGN.md section 5). The driver describes a program
@@ -70,8 +71,15 @@ type Sched struct {
 	Stuck             bool // a thread did not come back within the watchdog (uncontrolled blocking)
 	Watchdog          time.Duration
 	YieldOnBareAccess bool
+	TrackAccess       bool
+	keep              []unsafe.Pointer // logged objects stay reachable: an address is never reused within a run
+	cellID            map[uintptr]int64
 	aborting          atomic.Bool
 }
+
+// Probes switches the access probes on for the runs that follow: bare accesses become scheduling
+// points, and with logging on every access is recorded.
+var Probes bool
 
 var cur atomic.Pointer[Sched]
 
@@ -281,6 +289,68 @@ func (s *Sched) wgWait(w *WaitGroup) {
 	}
 }
 
+// Tracking reports whether access probes should report (a controlled run that wants them).
+func Tracking() bool {
+	s := active()
+	return s != nil && s.TrackAccess && !s.aborting.Load()
+}
+
+// Access is called by the probes in package vacc: the calling thread touches the cells at
+// base+offs[i]. An access made while the thread holds no lock at all is a scheduling point
+// first (otherwise the enumeration of interleavings would silently depend on what C01 is
+// there to establish), then it is logged with the locks held.
+func Access(base unsafe.Pointer, offs []uintptr, write bool, site int) {
+	s := active()
+	if s == nil || !s.TrackAccess {
+		return
+	}
+	t := s.me()
+	if t == nil || t.st == tsDone {
+		return
+	}
+	if len(t.held) == 0 && s.YieldOnBareAccess {
+		t.st = tsPoint
+		s.yield(t)
+	}
+	if !s.LogOn {
+		return
+	}
+	s.mu.Lock()
+	s.keep = append(s.keep, base)
+	for _, o := range offs {
+		a := uintptr(base) + o
+		id, ok := s.cellID[a]
+		if !ok {
+			id = int64(len(s.cellID) + 1)
+			s.cellID[a] = id
+		}
+		s.Log = append(s.Log, Event{K: "acc", T: t.ID, W: write, Site: site, Cell: id})
+	}
+	s.mu.Unlock()
+}
+
+// NoteHand records that the memory at base+offs[i] has just been handed to the caller by the
+// container (a returned slice's elements, a returned map, a returned item): event "hand".
+func NoteHand(base unsafe.Pointer, offs []uintptr) {
+	s := active()
+	if s == nil || !s.LogOn || base == nil {
+		return
+	}
+	t := s.me()
+	s.mu.Lock()
+	defer s.mu.Unlock()
+	s.keep = append(s.keep, base)
+	for _, o := range offs {
+		a := uintptr(base) + o
+		id, ok := s.cellID[a]
+		if !ok {
+			id = int64(len(s.cellID) + 1)
+			s.cellID[a] = id
+		}
+		s.Log = append(s.Log, Event{K: "hand", T: t.ID, Cell: id})
+	}
+}
+
 // Point is a plain scheduling point (call boundaries, bare accesses).
 func Point() {
 	s := active()
@@ -369,7 +439,8 @@ type Result struct {
 
 // Run executes the thread bodies once under choose. Thread ids are 1-based.
 func Run(bodies []func(), choose Chooser, logOn bool) *Result {
-	s := &Sched{byGoid: map[int64]*Thread{}, yielded: make(chan *Thread), LogOn: logOn, Watchdog: 20 * time.Second}
+	s := &Sched{byGoid: map[int64]*Thread{}, yielded: make(chan *Thread), LogOn: logOn, Watchdog: 20 * time.Second,
+		TrackAccess: Probes, YieldOnBareAccess: Probes, cellID: map[uintptr]int64{}}
 	for i, b := range bodies {
 		t := &Thread{ID: i + 1, st: tsNew, held: map[*RWMutex]int{}}
 		s.threads = append(s.threads, t)
@@ -505,6 +576,11 @@ func Explore(mk func() []func(), pb int, max int, logOn bool, visit func(*Result
 // under the schedule of this iteration; body returns false to stop.
 func ExploreWith(pb int, max int, body func(run func([]func()) *Result) bool) (int, bool) {
 	return exploreWith(pb, max, false, body)
+}
+
+// ExploreWithLog is ExploreWith with the event log switched on.
+func ExploreWithLog(pb int, max int, body func(run func([]func()) *Result) bool) (int, bool) {
+	return exploreWith(pb, max, true, body)
 }
 
 func exploreWith(pb int, max int, logOn bool, body func(run func([]func()) *Result) bool) (int, bool) {
